@@ -679,6 +679,11 @@ def _search_wildcard(elem, session, query=None):
         #   (which is stored as NULL)
         return query
 
+    if elem.VR != "PN":
+        # Matching is case-sensitive except for PN, sqlite's GLOB is
+        #   case-sensitive and uses the same '*' and '?' wild cards
+        return query.filter(attr.op("GLOB")(value.replace("[", "[[]")))
+
     # Only '*' and '?' are wild cards, escape the SQL LIKE wild cards
     for char in ("\\", "%", "_"):
         value = value.replace(char, f"\\{char}")
